@@ -205,6 +205,16 @@ class C08(Prop):
             for o in outs:
                 vals.append(o)
                 times.append(t)
+            # the first period counts from SUBSCRIPTION (not from the executor's first look at the task): once the
+            # executor has run until idle at a time when the first tick is due, that tick has been delivered
+            # (interval / interval_at only: their RepeatTask arms its first timer when it is built; `timer` goes
+            # through `schedule(task, delay)`, whose delay starts at the task's first poll by design)
+            if (e[0] == "run" and tsub is not None and not unsub and not vals
+                    and pipe[0] in ("interval", "intervalat")):
+                first = int(pipe[1])
+                if t >= tsub + first:
+                    return {"kind": "first-tick-late", "event": k,
+                            "detail": f"subscribed at {tsub}, first tick due at {tsub + first}, executor idle at {t}: nothing delivered"}
         if tsub is None:
             return None
         if pipe[0] in ("interval", "intervalat"):
